@@ -64,7 +64,7 @@ def gen(tier, rng):
 
 def main(argv):
     a, seed = vlib.args(argv)
-    chk = vlib.Check(PID, a.tier, seed, "other")
+    chk = vlib.Check(PID, a.tier, seed, "proof")
     rng = random.Random(seed * 3001 + 9)
     chk.trusted = ["the in-process DOM harness/dom/shims/web-sys (incl. its HTML parser for the server output) standing in for a browser",
                    "tools/domgen.py (generated crate root, client polarity)", "harness/ssr-driver (real native SSR) and harness/dom/dom-driver (real hydration code)",
@@ -74,8 +74,9 @@ def main(argv):
                 "Show, NoHydrate / NoSsr, Keyed / Indexed in a third of the cases) plus 8 hand-picked soft spots; the server string comes from the real "
                 "native SSR build, is parsed into the in-process DOM and hydrated by the real HydrateNode code; then 0-4 signal writes; non-trivial = the "
                 "view contains a dynamic construct and at least one write changed the DOM; distinct = distinct (state, view, ops)")
-    chk.cov["explanation"] = ("end-to-end differential check: server output of the real SSR code -> real hydration code on an in-process DOM -> compare with a fresh "
-                              "client render and with the node identities of the parsed server DOM; no Coq theorem is claimed for this property yet")
+    chk.cov["explanation"] = ("Coq theorems relating the server build (Ssr/View.v) and the client model (Dom/Client.v): same visible tree, same elements in key order, same behaviour under writes; end-to-end differential check: real SSR output -> real hydration code on an in-process DOM -> fresh client render, node identities of the parsed server DOM, and the client model through every write")
+    okp, msgp = vlib.proof_step(chk, "C09+C05", ["theories/Props/C09.vo", "theories/Props/C05.vo", "theories/Dom/ClientShow.vo"],
+                                ["C09_visible_tree", "C09_keys", "C09_updates_agree", "C05_fresh_render_every_step", "C05_run_dom_nodup"])
     okb, outb, ssr = vlib.cargo_build("ssr-driver")
     chk.obligation("cargo build ssr-driver against /repo", okb, outb)
     binp = domlib.build(chk)
@@ -200,8 +201,8 @@ def main(argv):
     if real:
         real.sort(key=lambda o: len(o["view"]))
         chk.violation({"property": PID, "kind": "oracle failure on implementation output", "input": real[0], "count": len(real)})
-    elif mism or model is None:
-        chk.violation({"property": PID, "kind": "proof/correspondence broken, oracle clean on all inputs explored", "mismatches": mism[:3], "mismatch_count": len(mism)}, no_input=True)
+    elif mism or model is None or not okp:
+        chk.violation({"property": PID, "kind": "proof/correspondence broken, oracle clean on all inputs explored", "mismatches": mism[:3], "mismatch_count": len(mism), "theorems": "" if okp else msgp}, no_input=True)
     return chk.finish()
 
 
